@@ -117,6 +117,8 @@ def canon(op: dict, out: dict) -> Any:
         c["exception"] = out["exception"][:2]
     if k == "lint":
         c["records"] = [(r["filepath"], r["violations"]) for r in out.get("records", [])]
+        # reported order per file (as_records re-sorts; get_violations() callers and the human format do not)
+        c["order"] = sorted((f["path"], f.get("reported_order")) for f in out.get("mon", {}).get("files", []))
         c["files_skipped"] = out.get("files_skipped")
         c["stats"] = out.get("stats")
     elif k == "api_lint":
@@ -190,7 +192,7 @@ def run_one(ctx: Any, seed: int, tier: str, replay: Optional[dict] = None) -> di
         warm = replay.get("warm", WARM)
         fresh_cold = replay.get("fresh_cold", True)
     else:
-        world = gen_fix_world(rng.fork("world"), {"kinds": KINDS + ["cte_multi", "cte_multi", "cte_multi", "cte_multi", "clean", "rulecase", "rulecase", "rulecase", "tmpl_undef", "tmpl_undef", "jinja_fixable"], "min_files": 3, "max_files": 7, "bait": 0.3, "jinja_loader": 0.5,
+        world = gen_fix_world(rng.fork("world"), {"kinds": KINDS + ["cte_multi", "cte_multi", "cte_multi", "cte_multi", "clean", "rulecase", "rulecase", "rulecase", "tmpl_undef", "tmpl_undef", "jinja_fixable", "jinja_fixable", "jinja_fixable"], "min_files": 3, "max_files": 7, "bait": 0.3, "jinja_loader": 0.5,
                                                    "size_limits": rng.fork("f").chance(0.2)})
         history = gen_history(rng.fork("history"), world)
         pool = ctx.hashseeds(6)
